@@ -324,4 +324,303 @@ theorem canonInner_spec (P : Version → Prop) {this next : Span}
     · simp only [hq, Bool.false_eq_true, ↓reduceIte, ok_bind]
       exact tail (Or.inl hbc)
 
+/-! ### the inner loop -/
+
+/-- Some not-yet-merged span of the flagged list contains `v`. -/
+def live (s : System) (L : List (Span × Bool)) (v : Version) : Bool :=
+  L.any (fun p => !p.2 && has s p.1 v)
+
+@[simp] theorem live_nil (v : Version) : live s [] v = false := rfl
+@[simp] theorem live_cons (p : Span × Bool) (L : List (Span × Bool)) (v : Version) :
+    live s (p :: L) v = ((!p.2 && has s p.1 v) || live s L v) := by simp [live]
+
+/-- Every element after `this` is a well-formed non-empty span whose lower end is not below `this`'s. -/
+def RestOK (s : System) (P : Version → Prop) (this : Span) (rest : List (Span × Bool)) : Prop :=
+  ∀ p ∈ rest, SpanOK s p.1 ∧ p.1.rank ≠ .empty ∧ MinLE s this p.1 ∧ AllB P p.1
+
+theorem RestOK.tail {P : Version → Prop} {this : Span} {p : Span × Bool} {rest : List (Span × Bool)}
+    (h : RestOK s P this (p :: rest)) : RestOK s P this rest :=
+  fun q hq => h q (List.mem_cons_of_mem _ hq)
+
+theorem RestOK.congr {P : Version → Prop} {this this' : Span} {rest : List (Span × Bool)}
+    (h : RestOK s P this rest) (h1 : this'.min = this.min) (h2 : this'.minOpen = this.minOpen) :
+    RestOK s P this' rest :=
+  fun q hq => let ⟨a, b, c, d⟩ := h q hq; ⟨a, b, c.congr_left h1 h2, d⟩
+
+theorem canonInnerLoop_spec (P : Version → Prop) :
+    ∀ (rest : List (Span × Bool)) (this : Span), SpanOK s this → this.rank ≠ .empty → AllB P this →
+      RestOK s P this rest →
+      ∃ this' rest', canonInnerLoop this rest = .ok (this', rest') ∧
+        SpanOK s this' ∧ this'.rank ≠ .empty ∧ this'.min = this.min ∧ this'.minOpen = this.minOpen ∧
+        AllB P this' ∧ rest'.map (·.1) = rest.map (·.1) ∧
+        ∀ v, SeamFree s P v → (has s this' v || live s rest' v) = (has s this v || live s rest v) := by
+  intro rest
+  induction rest with
+  | nil =>
+    intro this ht htne hPt _
+    exact ⟨this, [], rfl, ht, htne, rfl, rfl, hPt, rfl, fun _ _ => rfl⟩
+  | cons p rest ih =>
+    intro this ht htne hPt hrest
+    obtain ⟨next, m⟩ := p
+    cases m with
+    | true =>
+      obtain ⟨t', r', e, h1, h2, h3, h4, h5, h6, h7⟩ := ih this ht htne hPt hrest.tail
+      refine ⟨t', (next, true) :: r', ?_, h1, h2, h3, h4, h5, by simp [h6], ?_⟩
+      · rw [canonInnerLoop, e]; rfl
+      · intro v hv
+        simpa using h7 v hv
+    | false =>
+      obtain ⟨hn, hnne, hle, hPn⟩ := hrest (next, false) List.mem_cons_self
+      obtain ⟨this1, ctl, e1, hstep⟩ := canonInner_spec P ht htne hn hnne hle hPt hPn
+      rw [canonInnerLoop, e1]
+      cases ctl with
+      | brk =>
+        have : this1 = this := hstep
+        subst this
+        exact ⟨this1, (next, false) :: rest, rfl, ht, htne, rfl, rfl, hPt, rfl, fun _ _ => rfl⟩
+      | cont =>
+        have : this1 = this := hstep
+        subst this
+        obtain ⟨t', r', e, h1, h2, h3, h4, h5, h6, h7⟩ := ih this1 ht htne hPt hrest.tail
+        refine ⟨t', (next, false) :: r', ?_, h1, h2, h3, h4, h5, by simp [h6], ?_⟩
+        · simp only [ok_bind, e]
+        · intro v hv
+          have := h7 v hv
+          simp only [live_cons, Bool.not_false, Bool.true_and]
+          rw [Bool.or_left_comm, this, Bool.or_left_comm]
+      | merge =>
+        obtain ⟨s1, s2, s3, s4, s5, s6⟩ := hstep
+        obtain ⟨t', r', e, h1, h2, h3, h4, h5, h6, h7⟩ := ih this1 s1 s2 s5 (hrest.tail.congr s3 s4)
+        refine ⟨t', (next, true) :: r', ?_, h1, h2, h3.trans s3, h4.trans s4, h5, by simp [h6], ?_⟩
+        · simp only [ok_bind, e]
+        · intro v hv
+          have := h7 v hv
+          simp only [live_cons, Bool.not_true, Bool.false_and, Bool.false_or, Bool.not_false, Bool.true_and]
+          rw [this, s6 v hv, Bool.or_assoc]
+
+/-! ### the outer loop -/
+
+theorem sle_nonempty {x y : Span} (hx : SpanOK s x) (hxne : x.rank ≠ .empty) (hy : SpanOK s y)
+    (h : sle s x y) : y.rank ≠ .empty ∧ MinLE s x y := by
+  obtain ⟨a, b, h1, -⟩ := hx.bounds hxne
+  have hm := minLE_of_sle h1 h
+  refine ⟨?_, hm⟩
+  obtain ⟨_, c, _, hc, _⟩ := hm
+  intro he
+  unfold SpanOK at hy
+  rw [he] at hy
+  rw [hy.1] at hc
+  cases hc
+
+theorem MinLE.le {x y : Span} {a c : Version} (h : MinLE s x y) (hx : x.min = some a) (hy : y.min = some c) :
+    pt s a ≤ pt s c := by
+  obtain ⟨a', c', e1, e2, h⟩ := h
+  rw [hx] at e1; cases e1
+  rw [hy] at e2; cases e2
+  grind
+
+theorem canonOuter_spec (P : Version → Prop) :
+    ∀ (fuel : Nat) (L : List (Span × Bool)), L.length ≤ fuel →
+      (∀ x ∈ L.map (·.1), SpanOK s x ∧ AllB P x) → Sorted s (L.map (·.1)) →
+      ∃ out allEmpty, canonOuter L fuel = .ok (out, allEmpty) ∧
+        (∀ x ∈ out, SpanOK s x ∧ x.rank ≠ .empty ∧ AllB P x ∧ ∃ y ∈ L.map (·.1), y.rank ≠ .empty ∧ x.min = y.min) ∧
+        MinSorted s out ∧
+        (∀ v, SeamFree s P v → anyHas s out v = live s L v) ∧
+        (allEmpty = true → out = [] ∧ ∀ p ∈ L, p.2 = true ∨ p.1.rank = .empty) ∧
+        (allEmpty = false → out ≠ []) := by
+  intro fuel
+  induction fuel with
+  | zero =>
+    intro L hlen _ _
+    have : L = [] := List.eq_nil_of_length_eq_zero (by omega)
+    subst this
+    exact ⟨[], true, rfl, by simp, by simp [MinSorted], by simp, by simp, by simp⟩
+  | succ fuel ih =>
+    intro L hlen hok hsorted
+    cases L with
+    | nil => exact ⟨[], true, rfl, by simp, by simp [MinSorted], by simp, by simp, by simp⟩
+    | cons p rest =>
+      obtain ⟨this, m⟩ := p
+      have hlen' : rest.length ≤ fuel := by simp at hlen; omega
+      have hok' : ∀ x ∈ rest.map (·.1), SpanOK s x ∧ AllB P x := fun x hx => hok x (by simp at hx ⊢; exact Or.inr hx)
+      have hsorted' : Sorted s (rest.map (·.1)) := by
+        simp only [List.map_cons, Sorted, List.pairwise_cons] at hsorted
+        exact hsorted.2
+      -- skipping the head
+      have skip : (m = true ∨ this.rank = .empty) →
+          ∃ out allEmpty, canonOuter rest fuel = .ok (out, allEmpty) ∧
+            (∀ x ∈ out, SpanOK s x ∧ x.rank ≠ .empty ∧ AllB P x ∧
+              ∃ y ∈ ((this, m) :: rest).map (·.1), y.rank ≠ .empty ∧ x.min = y.min) ∧
+            MinSorted s out ∧
+            (∀ v, SeamFree s P v → anyHas s out v = live s ((this, m) :: rest) v) ∧
+            (allEmpty = true → out = [] ∧ ∀ p ∈ (this, m) :: rest, p.2 = true ∨ p.1.rank = .empty) ∧
+            (allEmpty = false → out ≠ []) := by
+        intro hskip
+        obtain ⟨out, ae, e, h1, h2, h3, h4, h4'⟩ := ih rest hlen' hok' hsorted'
+        refine ⟨out, ae, e, ?_, h2, ?_, ?_, h4'⟩
+        · intro x hx
+          obtain ⟨q1, q2, q3, y, hy, q4⟩ := h1 x hx
+          exact ⟨q1, q2, q3, y, by simp at hy ⊢; exact Or.inr hy, q4⟩
+        · intro v hv
+          rw [h3 v hv, live_cons]
+          rcases hskip with h | h
+          · simp [h]
+          · simp [has_empty h]
+        · intro hae
+          obtain ⟨q1, q2⟩ := h4 hae
+          refine ⟨q1, ?_⟩
+          intro p hp
+          rcases List.mem_cons.mp hp with rfl | hp
+          · exact hskip
+          · exact q2 p hp
+      rw [canonOuter]
+      by_cases hm : m = true
+      · simp only [hm, ↓reduceIte]
+        subst hm
+        exact skip (Or.inl rfl)
+      · have hm' : m = false := by simpa using hm
+        subst hm'
+        simp only [Bool.false_eq_true, ↓reduceIte]
+        by_cases hte : this.rank = .empty
+        · have hte' : (this.rank == Rank.empty) = true := by simp [hte]
+          simp only [hte', ↓reduceIte]
+          exact skip (Or.inr hte)
+        · have hte' : (this.rank == Rank.empty) = false := by simpa using hte
+          simp only [hte', Bool.false_eq_true, ↓reduceIte]
+          obtain ⟨htok, htP⟩ := hok this (by simp)
+          have hrest : RestOK s P this rest := by
+            intro q hq
+            have hq' : q.1 ∈ rest.map (·.1) := List.mem_map_of_mem hq
+            obtain ⟨qok, qP⟩ := hok' q.1 hq'
+            simp only [List.map_cons, Sorted, List.pairwise_cons] at hsorted
+            obtain ⟨qne, qle⟩ := sle_nonempty htok hte qok (hsorted.1 q.1 hq')
+            exact ⟨qok, qne, qle, qP⟩
+          obtain ⟨t', r', e, h1, h2, h3, h4, h5, h6, h7⟩ := canonInnerLoop_spec P rest this htok hte htP hrest
+          have hlen'' : r'.length ≤ fuel := by
+            have := congrArg List.length h6
+            simp at this; omega
+          obtain ⟨out, ae, e', g1, g2, g3, -, -⟩ := ih r' hlen'' (by rw [h6]; exact hok') (by rw [h6]; exact hsorted')
+          refine ⟨t' :: out, false, by simp only [e, ok_bind, e'], ?_, ?_, ?_, by simp, by simp⟩
+          · intro x hx
+            rcases List.mem_cons.mp hx with rfl | hx
+            · exact ⟨h1, h2, h5, this, by simp, hte, h3⟩
+            · obtain ⟨q1, q2, q3, y, hy, q4⟩ := g1 x hx
+              rw [h6] at hy
+              exact ⟨q1, q2, q3, y, by simp at hy ⊢; exact Or.inr hy, q4⟩
+          · unfold MinSorted
+            rw [List.pairwise_cons]
+            refine ⟨?_, g2⟩
+            intro x hx a c _ _ ea ec
+            obtain ⟨_, _, _, y, hy, hyne, q4⟩ := g1 x hx
+            rw [h6] at hy
+            simp only [List.map_cons, Sorted, List.pairwise_cons] at hsorted
+            obtain ⟨yok, _⟩ := hok' y hy
+            obtain ⟨_, yle⟩ := sle_nonempty htok hte yok (hsorted.1 y hy)
+            exact yle.le (h3 ▸ ea) (q4 ▸ ec)
+          · intro v hv
+            rw [anyHas_cons, g3 v hv, h7 v hv, live_cons]
+            simp
+
+/-! ### `canon` (T6) -/
+
+theorem live_init (l : List Span) (v : Version) : live s (l.map (fun x => (x, false))) v = anyHas s l v := by
+  induction l with
+  | nil => rfl
+  | cons x l ih => simp [ih]
+
+theorem anyHas_congr {l l' : List Span} (h : ∀ y, y ∈ l ↔ y ∈ l') (v : Version) : anyHas s l v = anyHas s l' v := by
+  apply bool_eq_of_iff
+  rw [anyHas_iff, anyHas_iff]
+  constructor
+  · rintro ⟨x, hx, hv⟩; exact ⟨x, (h x).mp hx, hv⟩
+  · rintro ⟨x, hx, hv⟩; exact ⟨x, (h x).mpr hx, hv⟩
+
+theorem sysOfSpans_eq (l : List Span) (hok : ∀ x ∈ l, SpanOK s x) : sysOfSpans l = s ∨ sysOfSpans l = .default := by
+  unfold sysOfSpans
+  cases h : l.findSome? (fun sp => sp.min) with
+  | none => exact Or.inr rfl
+  | some v =>
+    left
+    obtain ⟨x, hx, hv⟩ := List.exists_of_findSome?_eq_some h
+    have := (hok x hx).optVG.1
+    rw [hv] at this
+    exact this.1
+
+/-- **Soundness of `canon`** (T6): on well-formed spans of a non-Maven generic system it
+succeeds; the result is well-formed, non-empty if the input is, sorted by `min`, every
+bound of it is a bound of the input, and it denotes the union of the input spans for every
+candidate outside successor seams. -/
+theorem canonSpans_spec (P : Version → Prop) (hs : s ≠ .maven) (l : List Span)
+    (hok : ∀ x ∈ l, SpanOK s x ∧ AllB P x) :
+    ∃ r, canonSpans l = .ok r ∧ (∀ x ∈ r, SpanOK s x ∧ AllB P x) ∧ (l ≠ [] → r ≠ []) ∧
+      (2 ≤ l.length → MinSorted s r) ∧
+      ∀ v, SeamFree s P v → anyHas s r v = anyHas s l v := by
+  unfold canonSpans
+  by_cases h1 : l.length ≤ 1
+  · exact ⟨l, by simp only [h1, ↓reduceIte], hok, id, fun h => by omega, fun _ _ => rfl⟩
+  simp only [h1, ↓reduceIte]
+  have hmv : (sysOfSpans l == System.maven) = false := by
+    rcases sysOfSpans_eq l (fun x hx => (hok x hx).1) with h | h
+    · rw [h]; simpa using hs
+    · rw [h]; rfl
+  simp only [hmv, Bool.false_eq_true, ↓reduceIte]
+  obtain ⟨sorted, e1, hsorted, hmem⟩ := sort_spec l (fun x hx => (hok x hx).1)
+  simp only [e1, ok_bind, canonMerge]
+  have hok' : ∀ x ∈ (sorted.map (fun x => (x, false))).map (·.1), SpanOK s x ∧ AllB P x := by
+    intro x hx
+    simp only [List.map_map, Function.comp_def, List.map_id'] at hx
+    exact hok x ((hmem x).mp hx)
+  obtain ⟨out, ae, e2, g1, g2, g3, g4, g5⟩ := canonOuter_spec P (sorted.length + 1)
+    (sorted.map (fun x => (x, false))) (by simp) hok'
+    (by simpa only [List.map_map, Function.comp_def, List.map_id'] using hsorted)
+  simp only [e2, ok_bind]
+  have hsne : sorted ≠ [] := by
+    intro h
+    cases l with
+    | nil => simp at h1
+    | cons x _ =>
+      have := (hmem x).mpr List.mem_cons_self
+      rw [h] at this
+      cases this
+  cases ae with
+  | true =>
+    obtain ⟨-, hall⟩ := g4 rfl
+    simp only [↓reduceIte]
+    refine ⟨sorted.take 1, rfl, ?_, ?_, ?_, ?_⟩
+    · intro x hx
+      exact hok x ((hmem x).mp (List.mem_of_mem_take hx))
+    · intro _
+      cases sorted with
+      | nil => exact absurd rfl hsne
+      | cons _ _ => simp
+    · intro _
+      cases sorted with
+      | nil => simp [MinSorted]
+      | cons _ _ => simp [MinSorted]
+    · intro v _
+      have hempty : ∀ x ∈ sorted, x.rank = .empty := by
+        intro x hx
+        rcases hall (x, false) (List.mem_map_of_mem hx) with h | h
+        · cases h
+        · exact h
+      have z1 : anyHas s (sorted.take 1) v = false := by
+        rw [← Bool.not_eq_true, anyHas_iff]
+        rintro ⟨x, hx, hv⟩
+        rw [has_empty (hempty x (List.mem_of_mem_take hx))] at hv
+        cases hv
+      have z2 : anyHas s l v = false := by
+        rw [← Bool.not_eq_true, anyHas_iff]
+        rintro ⟨x, hx, hv⟩
+        rw [has_empty (hempty x ((hmem x).mpr hx))] at hv
+        cases hv
+      rw [z1, z2]
+  | false =>
+    simp only [Bool.false_eq_true, ↓reduceIte]
+    refine ⟨out, rfl, ?_, fun _ => g5 rfl, fun _ => g2, ?_⟩
+    · intro x hx
+      obtain ⟨q1, -, q3, -⟩ := g1 x hx
+      exact ⟨q1, q3⟩
+    · intro v hv
+      rw [g3 v hv, live_init, anyHas_congr hmem]
+
 end DepsDev.Proofs.C09
